@@ -6,6 +6,7 @@ import (
 	"strconv"
 	"strings"
 	"sync"
+	"time"
 
 	"mosn.io/api"
 	"mosn.io/mosn/pkg/types"
@@ -267,6 +268,11 @@ func (f *recvFilter) OnReceive(ctx context.Context, headers api.HeaderMap, buf b
 		return api.StreamFilterReMatchRoute
 	case 'R':
 		return api.StreamFilterReChooseHost
+	case 'Z': // a slow filter (calls out, or injects a delay like faultinject) that then answers like 'H'
+		time.Sleep(30 * time.Millisecond)
+		headers.Set(answerHdr, markerOf(f.cfg.index, v))
+		f.handler.SendHijackReply(code, headers)
+		return api.StreamFilterStop
 	case 'H': // the way ipaccess / payloadlimit / faultinject answer: request headers + Stop
 		headers.Set(answerHdr, markerOf(f.cfg.index, v))
 		f.handler.SendHijackReply(code, headers)
